@@ -1,6 +1,7 @@
 """Independent VMDK writers: hosted sparse (KDMV, incl. stream-optimized), ESX COWD, SE-sparse, descriptors."""
 from __future__ import annotations
 
+import hashlib
 import struct
 import zlib
 
@@ -190,7 +191,8 @@ def build_hosted(rng, *, capacity: int, grain: int, ngte: int = 512, states=None
 
 
 def build_stream_optimized(rng, *, capacity: int, grain: int, ngte: int = 512, states=None, tag: int = 1,
-                           descriptor: str | None = None, level: int = 6, version: int = 3, incompressible_frac: float = 0.15):
+                           descriptor: str | None = None, level: int = 6, version: int = 3, incompressible_frac: float = 0.15,
+                           tuned_frac: float = 0.35):
     """Stream-optimized hosted sparse extent: compressed grains with markers, GD located via the footer."""
     ngrains = -(-capacity // grain)
     if states is None:
@@ -224,10 +226,30 @@ def build_stream_optimized(rng, *, capacity: int, grain: int, ngte: int = 512, s
                 continue
             any_alloc = True
             src = layer
-            if rng.random() < incompressible_frac:
+            roll = rng.random()
+            if roll < incompressible_frac:
                 src = rand_layer
                 hard.add(g)
             src.units[g] = D
+            if incompressible_frac <= roll < incompressible_frac + tuned_frac:
+                # tune the content so that marker (12 bytes) + deflate stream ends right around a sector boundary
+                target = SECTOR * rng.randrange(1, min(4, grain) + 1) + rng.randrange(-16, 4)
+                gbytes = grain * SECTOR
+                best = None
+                r = max(target - 110, 0)
+                seedb = hashlib.shake_128(struct.pack("<QQ", tag, g)).digest(min(gbytes, target + 64))
+                while r <= min(len(seedb), gbytes):
+                    body = seedb[:r].ljust(gbytes, b"\0")
+                    n = len(zlib.compress(body, level))
+                    if best is None or abs(n - target) < abs(best[0] - target):
+                        best = (n, body)
+                    if n >= target:
+                        break
+                    r += 1
+                body = best[1]
+                for k_ in range(grain):
+                    layer.override[g * grain + k_] = body[k_ * SECTOR : (k_ + 1) * SECTOR]
+                stats["tuned"] = stats.get("tuned", 0) + 1
             raw = src.phys_bytes(g * grain, grain)
             comp = zlib.compress(raw, level)
             rec = struct.pack("<QI", g * grain, len(comp)) + comp
@@ -277,7 +299,8 @@ def build_stream_optimized(rng, *, capacity: int, grain: int, ngte: int = 512, s
     meta = {"kind": "stream", "capacity": capacity, "grain": grain, "ngte": ngte, "states": _states_str(st, ngrains), "flags": flags,
             "metadata_bytes": SECTOR * (2 + desc_size + gd_sectors + (gt_sectors + 1) * sum(1 for x in gd if x) + 3),
             "comp_min": min(stats["comp_sizes"], default=0), "comp_max": max(stats["comp_sizes"], default=0),
-            "multi_sector_grains": stats["multi_sector"], "incompressible_grains": len(hard), "size": capacity * SECTOR}
+            "multi_sector_grains": stats["multi_sector"], "incompressible_grains": len(hard), "tuned_grains": stats.get("tuned", 0),
+            "end_residues": sorted({(12 + n) % SECTOR for n in stats["comp_sizes"] if (12 + n) % SECTOR < 12 or (12 + n) % SECTOR > 496}), "size": capacity * SECTOR}
     return sf, _Mix(), meta
 
 
